@@ -79,6 +79,12 @@ class SimEndpoint(object):
         w.attempt_log.append(a)
         if w.forbid_connects:
             w.forbidden.append(("connect", a.host, a.port, w.step_no))
+        peer = w.listeners.get((a.host, a.port))
+        if peer is not None and getattr(peer, "refuses_synchronously", None) is not None and peer.refuses_synchronously(a.host, a.port):
+            # an endpoint may fail before returning: connect() hands back an already-failed Deferred
+            a.resolved = True
+            a.outcome = "refused-sync"
+            return defer.fail(failure.Failure(error.ConnectionRefusedError("refused (synchronously) %s:%s" % (a.host, a.port))))
         ev = Event("connect", attempt=a)
         w.push(ev)
         return a.d
